@@ -67,6 +67,9 @@ def body_catalogue(case, note):
         f = getattr(h.svg if label == "svg" else h.tags, name)
     inline = inline_names()
     default = name not in inline
+    # tags whose names differ from this one only in letter case were created earlier in the process
+    for variant in {name.upper(), name.lower(), name.swapcase(), name.capitalize()} - {name}:
+        h.Tag(variant, "earlier")
     t = f()
     check(type(t) is h.Tag, f"{label}.{name}() does not return a Tag", type(t).__name__)
     check(t.name == name, f"{label}.{name}() creates a <{t.name}> element")
@@ -84,6 +87,19 @@ def body_catalogue(case, note):
         except Exception as e:  # noqa
             raised = type(e).__name__
         check(raised == "TypeError", f"{label}.{name}(_add_ws={bad!r}) expected TypeError, got {raised}")
+    # every call creates its own element: results are distinct objects and changing one never shows in a later call
+    a1, a2 = f(), f()
+    check(a1 is not a2 and a1.attrs is not a2.attrs and a1.children is not a2.children, f"{label}.{name}() returned the same object (or shared parts) twice")
+    a1.add_class("changed")
+    a1.append("child")
+    a1.attrs["data-x"] = "1"
+    a3 = f()
+    check(len(a3.attrs) == 0 and len(a3.children) == 0 and a3.name == name and a3.add_ws is default, f"{label}.{name}(): a later call shows changes made to an earlier result", dict(a3.attrs), len(a3.children))
+    check(len(a2.attrs) == 0 and len(a2.children) == 0, f"{label}.{name}(): changing one result changed another")
+    b1 = f("x", id="i")
+    b1.append("y")
+    b2 = f("x", id="i")
+    check(S.snap(b2) == S.snap(h.Tag(name, "x", id="i", _add_ws=default)), f"{label}.{name}('x', id='i') after an earlier result was changed differs from Tag(...)")
     sig = inspect.signature(f)
     check(sig.parameters["_add_ws"].default is default, "signature default of _add_ws differs from the classification")
     note(True, "mod:" + label, "inline" if not default else "block")
